@@ -56,7 +56,8 @@ class Case:
         return self.d.ask(f"cmp p{self.id} t{self.id} c {fuel}")
 
     def replay_dict(self, ctx=None, extra=None) -> dict:
-        r = {"recipe": self.sexp, "version": self.version, "mode": self.prog.mode, "options": self.opts,
+        from recipes import pack
+        r = {"recipe": self.sexp, "program_pickle": pack(self.prog), "version": self.version, "mode": self.prog.mode, "options": self.opts,
              "teal": self.teal, "compile_result": list(self.res[:2]) if not self.ok else "ok"}
         if ctx is not None:
             r["ctx"] = render_ctx(ctx)
@@ -85,6 +86,15 @@ def replay_case(path: str) -> int:
     body = json.loads(open(path).read())
     d = Driver()
     print("what:", body.get("what"))
+    if "program_pickle" in body:
+        from recipes import unpack
+        prog = unpack(body["program_pickle"])
+        res = compile_real(prog, body["version"], **body.get("options", {}))
+        print("recompiled with the current /repo:", res[0], (res[1:] if res[0] != "ok" else ""))
+        if res[0] == "ok":
+            if body.get("teal") and res[1] != body["teal"]:
+                print("NOTE: the TEAL emitted now differs from the recorded one; using the current one")
+            body["teal"] = res[1]
     if "recipe" in body and body.get("teal"):
         print(d.ask(f"prog p {body['recipe']}"))
         print(d.ask(f"teal t {body['teal'].encode('utf-8').hex()}"))
